@@ -54,7 +54,7 @@ class C09(Prop):
                    'the numerical correctness of second-order data recomputed from restored factors is decided against refkfac in C05 (ckpt operation); here relations are bit-exact',
                    'vkit/simdist for the multi-rank share']
     examples = {'quick': 110, 'thorough': 300}
-    shards = {'quick': 4, 'thorough': 16}
+    shards = {'quick': 8, 'thorough': 16}
     shrink_budget_s = {'quick': 30.0, 'thorough': 180.0}
     required_labels = {'quick': ['nontrivial=True', 'multi_rank=True', 'recompute_branch=True', 'identical_branch=True'],
                        'thorough': ['nontrivial=True', 'multi_rank=True', 'recompute_branch=True', 'identical_branch=True', 'no_factors=True']}
